@@ -121,6 +121,7 @@ func driveConvert(s *shardSet, rng *rand.Rand, thorough bool) ([]string, map[str
 			}
 		}
 	}
+	driveBigConvert(s, rng, thorough)
 	return BuiltinTypes, map[string]int{"instantiations": inst}
 }
 
